@@ -225,11 +225,26 @@ NParams(x) == Len(FieldSeq(x, "posonlyargs")) + Len(FieldSeq(x, "args")) + Len(F
                 + (IF FieldSeq(x, "vararg") = <<0>> THEN 0 ELSE 1) + (IF FieldSeq(x, "kwarg") = <<0>> THEN 0 ELSE 1)
 WholeArgsOne(K, m) == /\ Kind(K.M[m].x) = "arguments" /\ NParams(K.M[m].x) = 1
                       /\ (TSlotTag(K.T[1]) = "" \/ \E o \in G!TopOccs(K, m) : o.g = "")
-Detail(K) == (IF \E m \in K.Sel : YieldArg(K, m) THEN "/yield-arg" ELSE "")
+(* a slice capture over the REAL field Call.args / ClassDef.bases with a keyword written between two captured    *)
+(* elements: not contiguous in the source                                                                       *)
+ArgsNonContig(K, m, st) ==
+  \E i \in 1..Len(K.M[m].caps) :
+    LET cap == K.M[m].caps[i]  n == Len(cap.el) IN
+    /\ cap.t = "seq" /\ n >= 2 /\ cap.el[1][1].h /\ cap.el[n][1].h
+    /\ (\E o \in G!TopOccs(K, m) : o.g = cap.tag)
+    /\ LET p1 == cap.el[1][1].p  pn == cap.el[n][1].p IN
+       /\ Len(p1) >= 1 /\ p1[Len(p1)].n \in {"args", "bases"} /\ pn[Len(pn)].n = p1[Len(p1)].n
+       /\ LET par == PNodeAt(st.liveP, SubSeq(p1, 1, Len(p1) - 1))
+              kws == PFieldSeq(par, "keywords")
+              a == PPos(PNodeAt(st.liveP, p1))  b == PPos(PNodeAt(st.liveP, pn))
+          IN Len(a) = 4 /\ Len(b) = 4 /\
+             \E k \in 1..Len(kws) : Len(PPos(kws[k])) = 4 /\ PosLess(a, PPos(kws[k])) /\ PosLess(PPos(kws[k]), b)
+Detail(K, st) == (IF \E m \in K.Sel : YieldArg(K, m) THEN "/yield-arg" ELSE "")
              \o (IF \E m \in K.Sel : MissingInBoolOp(K, m) THEN "/missing-in-boolop" ELSE "")
              \o (IF \E m \in K.Sel : WholeArgsOne(K, m) THEN "/whole-arguments-one" ELSE "")
              \o (IF K.nested /\ (Len(K.T) > 1 \/ (Cfg.replModule /\ Cfg.cat = "stmt")) THEN "/slice-template" ELSE "")
              \o (IF K.nested /\ \E m \in K.Sel : \E o \in G!TopOccs(K, m) : o.g = "" /\ o.flat THEN "/whole-flatten" ELSE "")
+             \o (IF \E m \in K.Sel : ArgsNonContig(K, m, st) THEN "/capture-args-noncontiguous" ELSE "")
 
 DoneClauses(s, e) ==
   LET t  == e.post
@@ -274,9 +289,9 @@ Clauses(s, e) ==
 
 ClassOf(s, e) ==
   CASE e.k = "subst" -> "subst/" \o Kind(NodeAt(e.pre.liveS, e.m.p)) \o (IF IsCont(e) THEN "/loop" ELSE "")
-                           \o Detail(KEvent(e.pre, e))
+                           \o Detail(KEvent(e.pre, e), e.pre)
     [] e.k = "done"  -> "done/" \o e.outcome \o "/" \o e.exc \o "/" \o Static.mode
-                           \o (IF Static.mode # "step" THEN Detail(Static.K) ELSE "")
+                           \o (IF Static.mode # "step" THEN Detail(Static.K, Tr.init) ELSE "")
     [] OTHER -> "?"
 
 Init == /\ tid \in 1..Len(Traces)
